@@ -119,7 +119,7 @@ def main(argv=None):
     ev = {"property_id": prop, "tier": tier, "seed": seed, "level": level,
           "coverage": cov, "assumptions": list(getattr(mod, "ASSUMPTIONS", [])),
           "wall_s": round(wall, 2), "violations": tot["nviol"]}
-    write_ev = not a.only
+    write_ev = not a.only and SRC == "/repo" and not os.environ.get("VMC_NO_EVIDENCE")
     errs = []
     if write_ev:
         path, errs = evidence.write(prop, ev)
@@ -149,7 +149,7 @@ def main(argv=None):
                 continue
             seen_keys.add(key + (shown,))
             rp = os.path.join(ROOT, "replays", "%s-%s-%d.json"
-                              % (prop, v["clause"], n))
+                              % (prop, v["clause"], shown))
             with open(rp, "w") as f:
                 json.dump({"property": prop, "clause": v["clause"],
                            "site": v.get("site"), "tier": tier,
